@@ -37,16 +37,36 @@ import (
 //go:embed baseline_funcs.txt
 var baselineFuncsTxt string
 
-var baselineFuncs = func() map[string]bool {
-	m := map[string]bool{}
+// baselineFuncs: "pkg\tName" -> signature as recorded on the baseline tree ("" if the list has no signature column).
+// A function whose signature differs from the recorded one changed together with its callers (an internal helper
+// that now takes or returns something else): it is treated like a new function and inlined in the baseline view.
+var baselineFuncs = func() map[string]string {
+	m := map[string]string{}
 	for _, l := range strings.Split(baselineFuncsTxt, "\n") {
-		l = strings.TrimSpace(l)
-		if l != "" && !strings.HasPrefix(l, "#") {
-			m[l] = true
+		l = strings.TrimRight(l, " \r")
+		if l == "" || strings.HasPrefix(l, "#") {
+			continue
 		}
+		parts := strings.SplitN(l, "\t", 3)
+		if len(parts) < 2 {
+			continue
+		}
+		sig := ""
+		if len(parts) == 3 {
+			sig = parts[2]
+		}
+		m[parts[0]+"\t"+parts[1]] = sig
 	}
 	return m
 }()
+
+func sigString(f *types.Func) string {
+	if f == nil {
+		return ""
+	}
+	sig := f.Type().(*types.Signature)
+	return types.TypeString(types.NewSignatureType(nil, nil, nil, sig.Params(), sig.Results(), sig.Variadic()), func(p *types.Package) string { return p.Path() })
+}
 
 // declName: "pkg\tName" or "pkg\tRecv.Name" (pointer-ness of the receiver ignored).
 func declName(pkgShort string, fd *ast.FuncDecl) string {
@@ -84,7 +104,8 @@ func dumpFuncs(p *Prog) []string {
 			}
 			for _, d := range f.Decls {
 				if fd, ok := d.(*ast.FuncDecl); ok {
-					out = append(out, declName(shortPkg(pk.PkgPath), fd))
+					f, _ := pk.TypesInfo.Defs[fd.Name].(*types.Func)
+					out = append(out, declName(shortPkg(pk.PkgPath), fd)+"\t"+sigString(f))
 				}
 			}
 		}
@@ -138,8 +159,9 @@ func buildInlinedView(p *Prog) (map[string][]byte, *inlineStats) {
 				if !ok || fd.Body == nil {
 					continue
 				}
-				if baselineFuncs[declName(shortPkg(pk.PkgPath), fd)] {
-					continue
+				obj0, _ := pk.TypesInfo.Defs[fd.Name].(*types.Func)
+				if bsig, known := baselineFuncs[declName(shortPkg(pk.PkgPath), fd)]; known && (bsig == "" || bsig == sigString(obj0) || fd.Name.IsExported()) {
+					continue // a baseline function with its baseline signature (exported API is never inlined)
 				}
 				if obj, ok := pk.TypesInfo.Defs[fd.Name].(*types.Func); ok {
 					if fd.Type.TypeParams != nil {
